@@ -16,6 +16,7 @@ import Driver.C20
 import Driver.C16
 import Driver.C18
 import Driver.C12
+import Driver.C19
 /-
   Line-protocol driver: one operation per input line, one canonical output line per operation.
   Imports `Model/` only (no Mathlib, no proofs) so that it links as a `lean_exe`.
@@ -42,7 +43,8 @@ def handlers : List Handler := [
   Driver.C20.handle,
   Driver.C16.handle,
   Driver.C18.handle,
-  Driver.C12.handle
+  Driver.C12.handle,
+  Driver.C19.handle
 ]
 
 def step (st : DState) (line : String) : DState × String :=
